@@ -1,7 +1,783 @@
-import MitmVerif.Model.C06
+/-
+  C06 — translating between HTTP versions preserves message semantics: the property theorems.
+
+  `h2_to_h1_single_message`  an HTTP/2 header block that hyper-h2's validator accepts (`h2ValidReq`), that
+        `parse_h2_request_headers` and `validate_request` accept, with a buffered body obeying hyper-h2's
+        content-length law, is written to an HTTP/1 server as bytes that the strict reference reader reads as
+        EXACTLY ONE message with the same method, path, fields and body;
+  `h2_to_h1_host`, `h2_to_h1_cookie`, `h2_to_h1_other_fields`  what the field list of that message is: Host from
+        :authority, Cookie fields joined with "; ", every other end-to-end field unchanged and in order;
+  `h1_to_h2`  the HTTP/2 header block written for an HTTP/1 request decodes to the same request (Host moved to
+        :authority, names lower-cased, connection-specific fields dropped, nothing else);
+  `h2_to_h2`  parse followed by format is the identity on the message;
+  `status_preserved`  the status code survives every conversion of a response.
+-/
+import MitmVerif.Lemmas.C06
 namespace MitmVerif.Props.C06
 open MitmVerif MitmVerif.C06
 
-theorem placeholder : True := trivial
+/-! ### what the hypotheses give -/
+
+private theorem valid_values (b : Block) (hv : h2ValidReq b = true) :
+    ∀ f ∈ b, ∀ c ∈ f.2, c ≠ 0 ∧ c ≠ 10 ∧ c ≠ 13 := by
+  intro f hf c hc
+  simp only [h2ValidReq, Bool.and_eq_true] at hv
+  have h1 := (List.all_eq_true.mp hv.1.1.1.1) f hf
+  simp only [fieldOk, Bool.and_eq_true, h2ValueOk] at h1
+  have := (List.all_eq_true.mp h1.1.1.1.2.1.1) c hc
+  simp at this
+  exact ⟨this.1.1, this.1.2, this.2⟩
+
+private theorem parse_parts (authOk : Bool) (b : Block) (r : Req) (hp : parseH2Request authOk b = some r) :
+    (pMethod, r.method) ∈ b ∧ (pPath, r.path) ∈ b ∧ (r.authority = [] ∨ (pAuthority, r.authority) ∈ b)
+      ∧ ∀ f ∈ r.fields, f ∈ b := by
+  unfold parseH2Request at hp
+  cases hs : splitPseudo b [] with
+  | none => simp [hs] at hp
+  | some pf =>
+    obtain ⟨ps, fs⟩ := pf
+    have hmem := splitPseudo_mem b [] ps fs hs
+    have hps : ∀ f ∈ ps, f ∈ b := fun f hf => by
+      rcases hmem.1 f hf with h | h
+      · simp at h
+      · exact h
+    simp only [hs] at hp
+    cases hm : lookup pMethod ps with
+    | none => simp [hm] at hp
+    | some m =>
+      cases hsc : lookup pScheme ps with
+      | none => simp [hm, hsc] at hp
+      | some sc =>
+        cases hpa : lookup pPath ps with
+        | none => simp [hm, hsc, hpa] at hp
+        | some pa =>
+          simp only [hm, hsc, hpa] at hp
+          split at hp
+          · simp at hp
+          · split at hp
+            · simp at hp
+            · simp at hp
+              subst hp
+              refine ⟨hps _ (lookup_mem _ _ _ hm), hps _ (lookup_mem _ _ _ hpa), ?_, hmem.2⟩
+              cases ha : lookup pAuthority ps with
+              | none => left; simp
+              | some a => right; simpa using hps _ (lookup_mem _ _ _ ha)
+
+private theorem validate_parts (r : Req) (hval : validateRequest r false = true) :
+    r.method ≠ [] ∧ (∀ c ∈ r.method, isLineWs c = false) ∧ (∀ c ∈ r.path, isLineWs c = false)
+      ∧ (∀ f ∈ r.fields, isToken f.1 = true)
+      ∧ r.fields.filter (nameIs sTE) = []
+      ∧ ((r.fields.filter (nameIs sCL)) = [] ∨ ∃ g, r.fields.filter (nameIs sCL) = [g] ∧ clStrict g.2 = true) := by
+  simp only [validateRequest, Bool.and_eq_true] at hval
+  obtain ⟨⟨⟨⟨⟨_, _⟩, hm1⟩, hm2⟩, hp⟩, hh⟩ := hval
+  simp only [validateHeaders, Bool.and_eq_true] at hh
+  obtain ⟨hall, hfr⟩ := hh
+  refine ⟨?_, ?_, ?_, ?_, ?_, ?_⟩
+  · intro e; rw [e] at hm1; simp at hm1
+  · intro c hc
+    cases h : isLineWs c with
+    | false => rfl
+    | true => exact absurd (List.any_eq_true.mpr ⟨c, hc, h⟩) (by simpa using hm2)
+  · intro c hc
+    cases h : isLineWs c with
+    | false => rfl
+    | true => exact absurd (List.any_eq_true.mpr ⟨c, hc, h⟩) (by simpa using hp)
+  · intro f hf
+    have := (List.all_eq_true.mp hall) f hf
+    simp only [Bool.and_eq_true] at this
+    exact this.1
+  · cases hte : r.fields.filter (nameIs sTE) with
+    | nil => rfl
+    | cons t ts =>
+      exfalso
+      simp only [hte, List.map_cons] at hfr
+      cases ts <;> simp at hfr
+  · cases hte : r.fields.filter (nameIs sTE) with
+    | cons t ts =>
+      exfalso
+      simp only [hte, List.map_cons] at hfr
+      cases ts <;> simp at hfr
+    | nil =>
+      simp only [hte, List.map_nil] at hfr
+      cases hcl : r.fields.filter (nameIs sCL) with
+      | nil => left; rfl
+      | cons g gs =>
+        right
+        cases gs with
+        | nil => exact ⟨g, rfl, by simpa [hcl] using hfr⟩
+        | cons g2 gs2 => simp [hcl] at hfr
+
+/-! ### the field list written to the HTTP/1 server -/
+
+private theorem cookie_ne (n : Bytes) (hn : n ≠ sCookieL) (f : Field) (h : (lower f.1 == lower sCookieL) = true) :
+    nameIs n f = false := by
+  have e : lower sCookieL = sCookieL := by decide
+  rw [e] at h
+  have : lower f.1 = sCookieL := by simpa using h
+  simp [nameIs, this]
+  exact fun h2 => hn h2.symm
+
+private theorem filter_joinCookies (n : Bytes) (hn : n ≠ sCookieL) (fs : List Field) :
+    (joinCookies fs).filter (nameIs n) = fs.filter (nameIs n) := by
+  rw [joinCookies_def]
+  split
+  · apply setAll_filter
+    · intro f hf v; exact cookie_ne n hn (f.1, v) hf
+    · have : nameIs n (sCookieL, joinWith sSemiSp (cookieValues fs)) = false := by
+        have e : lower sCookieL = sCookieL := by decide
+        simp [nameIs, e]; exact fun h => hn h.symm
+      exact this
+    · intro f hf; exact cookie_ne n hn f hf
+  · rfl
+
+private theorem filter_insertHost (n : Bytes) (hn : n ≠ sHostL) (r : Req) :
+    (insertHost r).filter (nameIs n) = r.fields.filter (nameIs n) := by
+  unfold insertHost
+  split
+  · have : nameIs n (sHost, r.authority) = false := by
+      have e : lower sHost = sHostL := by decide
+      simp [nameIs, e]; exact fun h => hn h.symm
+    simp [List.filter_cons, this]
+  · rfl
+
+private theorem hasName_iff (n : Bytes) (fs : List Field) : hasName n fs = !(fs.filter (nameIs n)).isEmpty := by
+  induction fs with
+  | nil => rfl
+  | cons f rest ih =>
+    simp only [hasName, List.any_cons, List.filter_cons] at ih ⊢
+    cases h : nameIs n f <;> simp [h, ih]
+
+/-- the Content-Length / Transfer-Encoding fields of the converted request -/
+private theorem framing_fields (r : Req) (body : Bytes) (hte : r.fields.filter (nameIs sTE) = []) :
+    (toH1Fields r body).filter (nameIs sTE) = [] ∧
+    (toH1Fields r body).filter (nameIs sCL) =
+      (if r.fields.filter (nameIs sCL) = [] ∧ body ≠ [] then [(sCL, natDec body.length)]
+       else r.fields.filter (nameIs sCL)) := by
+  have hte' : (joinCookies (insertHost r)).filter (nameIs sTE) = [] := by
+    rw [filter_joinCookies sTE (by decide), filter_insertHost sTE (by decide), hte]
+  have hcl' : (joinCookies (insertHost r)).filter (nameIs sCL) = r.fields.filter (nameIs sCL) := by
+    rw [filter_joinCookies sCL (by decide), filter_insertHost sCL (by decide)]
+  unfold toH1Fields addFraming
+  rw [hasName_iff, hasName_iff, hte', hcl']
+  by_cases hb : body = []
+  · subst hb
+    simp [hte', hcl']
+  · have hbe : body.isEmpty = false := by cases body <;> simp_all
+    cases hc : r.fields.filter (nameIs sCL) with
+    | nil =>
+      have h1 : nameIs sTE (sCL, natDec body.length) = false := by
+        have : lower sCL = sCL := by decide
+        simp [nameIs, this]; decide
+      have h2 : nameIs sCL (sCL, natDec body.length) = true := by
+        have : lower sCL = sCL := by decide
+        simp [nameIs, this]
+      simp [hbe, hb, List.filter_append, hte', hcl', hc, h1, h2]
+    | cons g gs => simp [hbe, hte', hcl', hc]
+
+private theorem toH1_clean (authOk : Bool) (b : Block) (r : Req) (body : Bytes)
+    (hv : h2ValidReq b = true) (hp : parseH2Request authOk b = some r) (hval : validateRequest r false = true) :
+    ∀ f ∈ toH1Fields r body, fieldClean f := by
+  have vv := valid_values b hv
+  have pp := parse_parts authOk b r hp
+  have tok := (validate_parts r hval).2.2.2.1
+  have hfields : ∀ f ∈ r.fields, fieldClean f := fun f hf => ⟨tok f hf, vv f (pp.2.2.2 f hf)⟩
+  have hins : ∀ f ∈ insertHost r, fieldClean f := by
+    intro f hf
+    unfold insertHost at hf
+    split at hf
+    · rcases List.mem_cons.mp hf with h | h
+      · subst h
+        refine ⟨(by decide : isToken sHost = true), ?_⟩
+        rcases pp.2.2.1 with ha | ha
+        · intro c hc; rw [ha] at hc; simp at hc
+        · exact vv (pAuthority, r.authority) ha
+      · exact hfields f h
+    · exact hfields f hf
+  have hjoinval : ∀ (vs : List Bytes), (∀ v ∈ vs, ∀ c ∈ v, c ≠ 0 ∧ c ≠ 10 ∧ c ≠ 13) →
+      ∀ c ∈ joinWith sSemiSp vs, c ≠ 0 ∧ c ≠ 10 ∧ c ≠ 13 := by
+    intro vs
+    induction vs with
+    | nil => intro _ c hc; simp [joinWith] at hc
+    | cons v rest ih =>
+      intro h c hc
+      cases rest with
+      | nil => simp [joinWith] at hc; exact h v (by simp) c hc
+      | cons w ws =>
+        simp only [joinWith] at hc
+        rcases List.mem_append.mp hc with h1 | h1
+        · rcases List.mem_append.mp h1 with h2 | h2
+          · exact h v (by simp) c h2
+          · have : c = 59 ∨ c = 32 := by simpa [sSemiSp] using h2
+            rcases this with e | e <;> (subst e; decide)
+        · exact ih (fun x hx => h x (by simp [hx])) c h1
+  have hjoin : ∀ f ∈ joinCookies (insertHost r), fieldClean f := by
+    intro f hf
+    rw [joinCookies_def] at hf
+    split at hf
+    · rcases setAll_mem _ _ _ _ f hf with h | ⟨h1, h2⟩
+      · exact hins f h
+      · refine ⟨?_, ?_⟩
+        · rcases h2 with h2 | ⟨g, hg, hg2⟩
+          · rw [h2]; decide
+          · rw [← hg2]; exact (hins g hg).1
+        · rw [h1]
+          apply hjoinval
+          intro v hv'
+          simp only [cookieValues, List.mem_map, List.mem_filter] at hv'
+          obtain ⟨g, ⟨hg, _⟩, rfl⟩ := hv'
+          exact (hins g hg).2
+    · exact hins f hf
+  intro f hf
+  unfold toH1Fields addFraming at hf
+  split at hf
+  · rcases List.mem_append.mp hf with h | h
+    · exact hjoin f h
+    · simp at h; subst h
+      refine ⟨(by decide : isToken sCL = true), ?_⟩
+      intro c hc
+      have := (natDigits_foldl (body.length + 1) body.length (by omega)).2.2 c hc
+      have hd := this.1
+      refine ⟨?_, ?_, ?_⟩ <;> (intro e; subst e; revert hd; decide)
+  · exact hjoin f hf
+
+/-! ### the theorems -/
+
+/-- hyper-h2's content-length law for a buffered body (`_track_content_length`): a content-length field that came
+    with DATA frames equals the number of body bytes. -/
+def ClLaw (r : Req) (body : Bytes) : Prop :=
+  ∀ g, r.fields.filter (nameIs sCL) = [g] → Ref.parseDec g.2 = some body.length
+
+theorem h2_to_h1_single_message (authOk : Bool) (b : Block) (body : Bytes) (r : Req)
+    (hv : h2ValidReq b = true) (hp : parseH2Request authOk b = some r)
+    (hval : validateRequest r false = true) (hcl : ClLaw r body) :
+    h2ToH1 authOk b body = some (assembleRequestHead r.method r.path sHttp11 (toH1Fields r body) ++ body) ∧
+    Ref.parse (assembleRequestHead r.method r.path sHttp11 (toH1Fields r body) ++ body)
+      = some [⟨r.method, r.path, sHttp11, (toH1Fields r body).map readBack, body⟩] := by
+  refine ⟨by simp [h2ToH1, hp, hval], ?_⟩
+  have vp := validate_parts r hval
+  have pp := parse_parts authOk b r hp
+  have hpath : r.path ≠ [] := by
+    simp only [h2ValidReq, Bool.and_eq_true] at hv
+    have := (List.all_eq_true.mp hv.2) r.path (by
+      simp only [valuesOf, List.mem_map, List.mem_filter]
+      exact ⟨(pPath, r.path), ⟨pp.2.1, by simp⟩, rfl⟩)
+    intro e; rw [e] at this; simp at this
+  have hclean := toH1_clean authOk b r body hv hp hval
+  have ff := framing_fields r body vp.2.2.2.2.1
+  have hte : ((toH1Fields r body).map readBack).filter (nameIs sTE) = [] := by
+    rw [filter_readBack, ff.1]; rfl
+  have hclf : ((toH1Fields r body).map readBack).filter (nameIs sCL)
+      = ((toH1Fields r body).filter (nameIs sCL)).map readBack := filter_readBack _ _
+  -- the framing the reference reader derives, by cases on the client's content-length field
+  have key : ∃ fr, Ref.framing sHttp11 ((toH1Fields r body).map readBack) = some fr ∧
+      ((fr = .none ∧ body = []) ∨ fr = .cl body.length) := by
+    rcases vp.2.2.2.2.2 with hnone | ⟨g, hg, hstrict⟩
+    · by_cases hb : body = []
+      · refine ⟨.none, ?_, Or.inl ⟨rfl, hb⟩⟩
+        apply framing_none _ hte
+        rw [hclf, ff.2]; simp [hnone, hb]
+      · refine ⟨.cl body.length, ?_, Or.inr rfl⟩
+        have hd := (natDigits_foldl (body.length + 1) body.length (by omega)).2.2
+        have hdig : ∀ c ∈ natDec body.length, isDigit c = true := fun c hc => (hd c hc).1
+        apply framing_cl _ (natDec body.length) body.length hte _ hdig (parseDec_natDec _)
+        rw [hclf, ff.2]
+        simp [hnone, hb, readBack, (digits_item _ hdig).2]
+    · refine ⟨.cl body.length, ?_, Or.inr rfl⟩
+      have hdig : ∀ c ∈ g.2, isDigit c = true := clStrict_digits g.2 hstrict
+      apply framing_cl _ g.2 body.length hte _ hdig (hcl g hg)
+      rw [hclf, ff.2]
+      simp [hg, readBack, (digits_item _ hdig).2]
+  obtain ⟨fr, hfr, hb⟩ := key
+  exact ref_parse_assembled r.method r.path (toH1Fields r body) body fr vp.2.1 vp.2.2.1 vp.1 hpath hclean hfr hb
+
+/-- Host: the client's own host field if it sent one, else the :authority, else none -/
+theorem h2_to_h1_host (r : Req) (body : Bytes) :
+    ((toH1Fields r body).filter (nameIs sHostL)).map (·.2) =
+      (if hasName sHostL r.fields then (r.fields.filter (nameIs sHostL)).map (·.2)
+       else if r.authority.isEmpty then [] else [r.authority]) := by
+  have h1 : (toH1Fields r body).filter (nameIs sHostL) = (insertHost r).filter (nameIs sHostL) := by
+    unfold toH1Fields addFraming
+    split
+    · have : nameIs sHostL (sCL, natDec body.length) = false := by rw [nameIs_mk]; decide
+      rw [List.filter_append, filter_joinCookies sHostL (by decide)]
+      simp [this]
+    · exact filter_joinCookies sHostL (by decide) _
+  rw [h1]
+  unfold insertHost
+  cases hh : hasName sHostL r.fields with
+  | true => simp
+  | false =>
+    have hnil : r.fields.filter (nameIs sHostL) = [] := by
+      have := hasName_iff sHostL r.fields
+      rw [hh] at this
+      cases hf : r.fields.filter (nameIs sHostL) with
+      | nil => rfl
+      | cons a as => simp [hf] at this
+    cases ha : r.authority.isEmpty with
+    | true => simp [hnil]
+    | false =>
+      have : nameIs sHostL (sHost, r.authority) = true := by rw [nameIs_mk]; decide
+      simp [List.filter_cons, this, hnil]
+
+/-- Cookie: several cookie fields are joined with "; " into one, a single one is kept -/
+theorem h2_to_h1_cookie (r : Req) (body : Bytes) :
+    cookieValues (toH1Fields r body) =
+      (if (cookieValues r.fields).length > 1 then [joinWith sSemiSp (cookieValues r.fields)]
+       else cookieValues r.fields) := by
+  have hins : cookieValues (insertHost r) = cookieValues r.fields := by
+    unfold cookieValues; rw [filter_insertHost sCookieL (by decide)]
+  have hadd : cookieValues (toH1Fields r body) = cookieValues (joinCookies (insertHost r)) := by
+    unfold toH1Fields addFraming cookieValues
+    split
+    · have : nameIs sCookieL (sCL, natDec body.length) = false := by rw [nameIs_mk]; decide
+      simp [List.filter_append, this]
+    · rfl
+  rw [hadd, joinCookies_def, hins]
+  split
+  · have e : lower sCookieL = sCookieL := by decide
+    have := setAll_values sCookieL (joinWith sSemiSp (cookieValues r.fields)) (insertHost r) false (by decide)
+    rw [e] at this
+    simpa [cookieValues] using this
+  · exact hins
+
+/-- every other field reaches the HTTP/1 server unchanged and in order -/
+theorem h2_to_h1_other_fields (r : Req) (body : Bytes) :
+    (toH1Fields r body).filter (fun f => !nameIs sCookieL f && !nameIs sHostL f && !nameIs sCL f) =
+      r.fields.filter (fun f => !nameIs sCookieL f && !nameIs sHostL f && !nameIs sCL f) := by
+  let q : Field → Bool := fun f => !nameIs sCookieL f && !nameIs sHostL f && !nameIs sCL f
+  have e : lower sCookieL = sCookieL := by decide
+  have hq : ∀ f : Field, (lower f.1 == lower sCookieL) = true → ∀ v, q (f.1, v) = false := by
+    intro f hf v
+    rw [e] at hf
+    simp [q, nameIs, hf]
+  have hjoin : (joinCookies (insertHost r)).filter q = (insertHost r).filter q := by
+    rw [joinCookies_def]
+    split
+    · apply setAll_filter
+      · exact hq
+      · simp [q, nameIs, e]
+      · intro f hf; exact hq f hf f.2
+    · rfl
+  have hins : (insertHost r).filter q = r.fields.filter q := by
+    unfold insertHost
+    split
+    · have : q (sHost, r.authority) = false := by
+        have : nameIs sHostL (sHost, r.authority) = true := by rw [nameIs_mk]; decide
+        simp [q, this]
+      simp [List.filter_cons, this]
+    · rfl
+  show (toH1Fields r body).filter q = r.fields.filter q
+  unfold toH1Fields addFraming
+  split
+  · have : q (sCL, natDec body.length) = false := by
+      have : nameIs sCL (sCL, natDec body.length) = true := by rw [nameIs_mk]; decide
+      simp [q, this]
+    rw [List.filter_append, hjoin, hins]
+    simp [this]
+  · rw [hjoin, hins]
+
+/-! ### HTTP/1 → HTTP/2 -/
+
+private theorem splitPseudo_regular (fs acc : List Field) (h : ∀ f ∈ fs, isPseudo f = false) :
+    splitPseudo fs acc = some (acc, fs) := by
+  cases fs with
+  | nil => rfl
+  | cons f rest => simp [splitPseudo, h f (by simp)]
+
+private theorem byte_forall (P : UInt8 → Prop) (h : ∀ n : Fin 256, P (UInt8.ofNat n.val)) (c : UInt8) : P c := by
+  have := h ⟨c.toNat, UInt8.toNat_lt c⟩
+  simpa using this
+
+private theorem lower_token_byte : ∀ c : UInt8, isTokenByte c = true → isPyWs (asciiLowerB c) = false ∧ asciiLowerB c ≠ 58 :=
+  byte_forall _ (by decide +kernel)
+
+private theorem lower_not_upper : ∀ d : UInt8, ¬(65 ≤ (asciiLowerB d).toNat ∧ (asciiLowerB d).toNat ≤ 90) :=
+  byte_forall _ (by decide +kernel)
+
+private theorem normalizeH1_regular (fs : List Field) (h : ∀ f ∈ fs, isToken f.1 = true) :
+    ∀ f ∈ normalizeH1 fs, isPseudo f = false := by
+  intro f hf
+  simp only [normalizeH1, List.mem_filter, List.mem_map] at hf
+  obtain ⟨⟨g, hg, rfl⟩, _⟩ := hf
+  have htok := h g hg
+  simp only [isToken, Bool.and_eq_true] at htok
+  cases hn : g.1 with
+  | nil => rw [hn] at htok; simp at htok
+  | cons c cs =>
+    rw [hn] at htok
+    have hc : isTokenByte c = true := (List.all_eq_true.mp htok.2) c (by simp)
+    have hlow : isPyWs (asciiLowerB c) = false ∧ asciiLowerB c ≠ 58 := lower_token_byte c hc
+    simp [isPseudo, lower, asciiLower, pyStrip, List.dropWhile, hlow.1]
+    -- the first byte survives both strips
+    have : ∃ t, dropEndWhile isPyWs (asciiLowerB c :: cs.map asciiLowerB) = asciiLowerB c :: t := by
+      unfold dropEndWhile
+      simp only [List.reverse_cons]
+      generalize (cs.map asciiLowerB).reverse = rv
+      induction rv with
+      | nil => simp [List.dropWhile, hlow.1]
+      | cons x xs ih =>
+        simp only [List.cons_append, List.dropWhile]
+        split
+        · exact ih
+        · simp
+    obtain ⟨t, ht⟩ := this
+    rw [ht]
+    simpa using hlow.2
+
+/-- The header block written for an HTTP/1 request (origin-form, so no authority of its own) decodes to the same
+    method, scheme and path, the Host field(s) as :authority, and the other fields lower-cased, stripped and
+    without the connection-specific ones — in the original order. -/
+theorem h1_to_h2 (r : Req) (hauth : r.authority = []) (htok : ∀ f ∈ r.fields, isToken f.1 = true) :
+    parseH2Request true (formatH2Request r false) =
+      some (if hasName sHostL r.fields then
+              ⟨r.method, r.scheme, joinWith sCommaSp ((r.fields.filter (nameIs sHostL)).map (·.2)), r.path,
+                normalizeH1 (r.fields.filter (fun f => !nameIs sHostL f))⟩
+            else ⟨r.method, r.scheme, [], r.path, normalizeH1 r.fields⟩) := by
+  have e1 : isPseudo (pMethod, r.method) = true := (by decide : (pMethod.head? == some 58) = true)
+  have e2 : isPseudo (pScheme, r.scheme) = true := (by decide : (pScheme.head? == some 58) = true)
+  have e3 : isPseudo (pPath, r.path) = true := (by decide : (pPath.head? == some 58) = true)
+  cases hh : hasName sHostL r.fields with
+  | false =>
+    have hreg := normalizeH1_regular r.fields htok
+    have hs := splitPseudo_regular (normalizeH1 r.fields) [(pMethod, r.method), (pScheme, r.scheme), (pPath, r.path)] hreg
+    have : splitPseudo (formatH2Request r false) [] =
+        some ([(pMethod, r.method), (pScheme, r.scheme), (pPath, r.path)], normalizeH1 r.fields) := by
+      simp [formatH2Request, hauth, hh, splitPseudo, e1, e2, e3, hs,
+        show (pScheme == pMethod) = false by decide, show (pPath == pMethod) = false by decide,
+        show (pPath == pScheme) = false by decide]
+      try decide
+    simp [parseH2Request, this, lookup, without,
+      show (pMethod == pScheme) = false by decide, show (pMethod == pPath) = false by decide,
+      show (pScheme == pMethod) = false by decide, show (pScheme == pPath) = false by decide,
+      show (pPath == pMethod) = false by decide, show (pPath == pScheme) = false by decide,
+      show (pMethod == pAuthority) = false by decide, show (pScheme == pAuthority) = false by decide,
+      show (pPath == pAuthority) = false by decide]
+  | true =>
+    have e4 : ∀ v, isPseudo (pAuthority, v) = true := fun v => by simp [isPseudo, pAuthority]
+    have htok' : ∀ f ∈ r.fields.filter (fun f => !nameIs sHostL f), isToken f.1 = true :=
+      fun f hf => htok f (List.mem_filter.mp hf).1
+    have hreg := normalizeH1_regular _ htok'
+    let a := joinWith sCommaSp ((r.fields.filter (nameIs sHostL)).map (·.2))
+    have hs := splitPseudo_regular (normalizeH1 (r.fields.filter (fun f => !nameIs sHostL f)))
+      [(pMethod, r.method), (pScheme, r.scheme), (pPath, r.path), (pAuthority, a)] hreg
+    have : splitPseudo (formatH2Request r false) [] =
+        some ([(pMethod, r.method), (pScheme, r.scheme), (pPath, r.path), (pAuthority, a)],
+          normalizeH1 (r.fields.filter (fun f => !nameIs sHostL f))) := by
+      simp [formatH2Request, hauth, hh, splitPseudo, e1, e2, e3, e4, hs, a,
+        show (pScheme == pMethod) = false by decide, show (pPath == pMethod) = false by decide,
+        show (pPath == pScheme) = false by decide, show (pAuthority == pMethod) = false by decide,
+        show (pAuthority == pScheme) = false by decide, show (pAuthority == pPath) = false by decide]
+      try decide
+    simp [parseH2Request, this, lookup, without, a,
+      show (pMethod == pScheme) = false by decide, show (pMethod == pPath) = false by decide,
+      show (pScheme == pMethod) = false by decide, show (pScheme == pPath) = false by decide,
+      show (pPath == pMethod) = false by decide, show (pPath == pScheme) = false by decide,
+      show (pMethod == pAuthority) = false by decide, show (pScheme == pAuthority) = false by decide,
+      show (pPath == pAuthority) = false by decide, show (pAuthority == pMethod) = false by decide,
+      show (pAuthority == pScheme) = false by decide, show (pAuthority == pPath) = false by decide]
+
+/-- names written over HTTP/2 for an HTTP/1 message carry no upper-case letter and no connection-specific field -/
+theorem h1_to_h2_names (fs : List Field) :
+    ∀ f ∈ normalizeH1 fs, (∀ c ∈ f.1, ¬(65 ≤ c.toNat ∧ c.toNat ≤ 90)) ∧ Gen.C06.connectionHeaders.contains f.1 = false := by
+  intro f hf
+  simp only [normalizeH1, List.mem_filter, List.mem_map] at hf
+  obtain ⟨⟨g, _, rfl⟩, hc⟩ := hf
+  refine ⟨?_, by simpa using hc⟩
+  intro c hc
+  have hsub : ∀ (p : UInt8 → Bool) (l : Bytes), ∀ x ∈ dropEndWhile p (l.dropWhile p), x ∈ l := by
+    intro p l x hx
+    unfold dropEndWhile at hx
+    have h1 : x ∈ (l.dropWhile p).reverse.dropWhile p := by simpa using hx
+    have h2 := (List.dropWhile_sublist p).subset h1
+    have h3 : x ∈ l.dropWhile p := by simpa using h2
+    exact (List.dropWhile_sublist p).subset h3
+  have := hsub isPyWs (lower g.1) c hc
+  simp only [lower, asciiLower, List.mem_map] at this
+  obtain ⟨d, _, rfl⟩ := this
+  exact lower_not_upper d
+
+/-! ### HTTP/2 → HTTP/2 -/
+
+private theorem pseudoSeq_tail (b : Block) (seen : List Bytes) (h : pseudoSeqOk seen true b = true) :
+    ∀ f ∈ b, isPseudo f = false := by
+  induction b generalizing seen with
+  | nil => intro f hf; simp at hf
+  | cons g rest ih =>
+    unfold pseudoSeqOk at h
+    cases hg : isPseudo g with
+    | true => simp [hg] at h
+    | false =>
+      simp only [hg] at h
+      intro f hf
+      rcases List.mem_cons.mp hf with h1 | h1
+      · subst h1; exact hg
+      · exact ih seen (by simpa using h) f h1
+
+private theorem split_fields_regular (b : Block) (seen : List Bytes) (acc ps fs : List Field)
+    (hseq : pseudoSeqOk seen false b = true) (hs : splitPseudo b acc = some (ps, fs)) :
+    ∀ f ∈ fs, isPseudo f = false := by
+  induction b generalizing seen acc with
+  | nil =>
+    simp [splitPseudo] at hs
+    obtain ⟨_, h2⟩ := hs
+    subst h2
+    intro f hf; simp at hf
+  | cons g rest ih =>
+    unfold pseudoSeqOk at hseq
+    unfold splitPseudo at hs
+    cases hg : isPseudo g with
+    | true =>
+      simp only [hg, if_true, Bool.and_eq_true] at hseq hs
+      split at hs
+      · simp at hs
+      · exact ih (g.1 :: seen) (acc ++ [g]) hseq.2 hs
+    | false =>
+      simp only [hg] at hseq hs
+      simp at hs
+      rw [← hs.2]
+      exact pseudoSeq_tail (g :: rest) seen (by unfold pseudoSeqOk; simpa [hg] using hseq)
+
+/-- Forwarding an HTTP/2 request over HTTP/2: the block written is the pseudo-headers followed by the fields as
+    received, and it decodes to the very same request. -/
+theorem h2_to_h2 (authOk : Bool) (b : Block) (r : Req)
+    (hv : h2ValidReq b = true) (hp : parseH2Request authOk b = some r) :
+    formatH2Request r true =
+      [(pMethod, r.method), (pScheme, r.scheme), (pPath, r.path)]
+        ++ (if r.authority.isEmpty then [] else [(pAuthority, r.authority)]) ++ r.fields
+    ∧ parseH2Request authOk (formatH2Request r true) = some r := by
+  -- the fields are regular fields with valid HTTP/2 names: normalize_h2_headers leaves them alone
+  have hfields : (∀ f ∈ r.fields, f ∈ b) ∧ (∀ f ∈ r.fields, isPseudo f = false) ∧ (r.authority.isEmpty = false → authOk = true) := by
+    unfold parseH2Request at hp
+    cases hs : splitPseudo b [] with
+    | none => simp [hs] at hp
+    | some pf =>
+      obtain ⟨ps, fs⟩ := pf
+      simp only [hs] at hp
+      have hreg : ∀ f ∈ fs, isPseudo f = false := by
+        simp only [h2ValidReq, Bool.and_eq_true] at hv
+        exact split_fields_regular b [] [] ps fs hv.1.1.1.2 hs
+      have hmem := (splitPseudo_mem b [] ps fs hs).2
+      cases hm : lookup pMethod ps with
+      | none => simp [hm] at hp
+      | some m =>
+        cases hsc : lookup pScheme ps with
+        | none => simp [hm, hsc] at hp
+        | some sc =>
+          cases hpa : lookup pPath ps with
+          | none => simp [hm, hsc, hpa] at hp
+          | some pa =>
+            simp only [hm, hsc, hpa] at hp
+            split at hp
+            · simp at hp
+            · split at hp
+              · simp at hp
+              · rename_i h1 h2
+                simp at hp; subst hp
+                refine ⟨hmem, hreg, ?_⟩
+                intro ha
+                simp only [Bool.and_eq_true, Bool.not_eq_true'] at h2
+                cases authOk with
+                | true => rfl
+                | false => simp [ha] at h2
+  have hnorm : normalizeH2 r.fields = r.fields := by
+    unfold normalizeH2
+    have : ∀ f ∈ r.fields, (if pyIsLower f.1 then f else (lower f.1, f.2)) = f := by
+      intro f hf
+      split
+      · rfl
+      · have hb := hfields.1 f hf
+        simp only [h2ValidReq, Bool.and_eq_true] at hv
+        have hok := (List.all_eq_true.mp hv.1.1.1.1) f hb
+        simp only [fieldOk, Bool.and_eq_true, h2NameOk] at hok
+        have hname := hok.1.1.1.1.1
+        have : lower f.1 = f.1 := by
+          unfold lower asciiLower
+          conv => rhs; rw [← List.map_id f.1]
+          apply List.map_congr_left
+          intro c hc
+          have := (List.all_eq_true.mp hname) c hc
+          simp only [Bool.and_eq_true, Bool.not_eq_true', decide_eq_true_eq] at this
+          unfold asciiLowerB
+          have h1 : ¬(65 ≤ c.toNat ∧ c.toNat ≤ 90) := by
+            intro h; have := this.1.1; simp [h.1, h.2] at this
+          simp [h1]
+        rw [this]
+    conv => rhs; rw [← List.map_id r.fields]
+    exact List.map_congr_left this
+  obtain ⟨m, sc, a, p, fs⟩ := r
+  simp only at hfields hnorm ⊢
+  have e1 : isPseudo (pMethod, m) = true := (by decide : (pMethod.head? == some 58) = true)
+  have e2 : isPseudo (pScheme, sc) = true := (by decide : (pScheme.head? == some 58) = true)
+  have e3 : isPseudo (pPath, p) = true := (by decide : (pPath.head? == some 58) = true)
+  have e4 : isPseudo (pAuthority, a) = true := (by decide : (pAuthority.head? == some 58) = true)
+  cases ha : a.isEmpty with
+  | true =>
+    have hnil : a = [] := by cases a <;> simp_all
+    subst hnil
+    have hfmt : formatH2Request ⟨m, sc, [], p, fs⟩ true = (pMethod, m) :: (pScheme, sc) :: (pPath, p) :: fs := by
+      simp [formatH2Request, hnorm]
+    have hs := splitPseudo_regular fs [(pMethod, m), (pScheme, sc), (pPath, p)] hfields.2.1
+    have hsp : splitPseudo ((pMethod, m) :: (pScheme, sc) :: (pPath, p) :: fs) [] =
+        some ([(pMethod, m), (pScheme, sc), (pPath, p)], fs) := by
+      simp [splitPseudo, e1, e2, e3, hs,
+        show (pScheme == pMethod) = false by decide, show (pPath == pMethod) = false by decide,
+        show (pPath == pScheme) = false by decide]
+      try decide
+    refine ⟨by rw [hfmt]; simp, ?_⟩
+    rw [hfmt]
+    simp [parseH2Request, hsp, lookup, without,
+      show (pMethod == pScheme) = false by decide, show (pMethod == pPath) = false by decide,
+      show (pScheme == pMethod) = false by decide, show (pScheme == pPath) = false by decide,
+      show (pPath == pMethod) = false by decide, show (pPath == pScheme) = false by decide,
+      show (pMethod == pAuthority) = false by decide, show (pScheme == pAuthority) = false by decide,
+      show (pPath == pAuthority) = false by decide]
+  | false =>
+    have hfmt : formatH2Request ⟨m, sc, a, p, fs⟩ true =
+        (pMethod, m) :: (pScheme, sc) :: (pPath, p) :: (pAuthority, a) :: fs := by
+      simp [formatH2Request, hnorm, ha]
+    have hs := splitPseudo_regular fs [(pMethod, m), (pScheme, sc), (pPath, p), (pAuthority, a)] hfields.2.1
+    have hok := hfields.2.2 ha
+    have hsp : splitPseudo ((pMethod, m) :: (pScheme, sc) :: (pPath, p) :: (pAuthority, a) :: fs) [] =
+        some ([(pMethod, m), (pScheme, sc), (pPath, p), (pAuthority, a)], fs) := by
+      simp [splitPseudo, e1, e2, e3, e4, hs,
+        show (pScheme == pMethod) = false by decide, show (pPath == pMethod) = false by decide,
+        show (pPath == pScheme) = false by decide, show (pAuthority == pMethod) = false by decide,
+        show (pAuthority == pScheme) = false by decide, show (pAuthority == pPath) = false by decide]
+      try decide
+    refine ⟨by rw [hfmt]; simp [ha], ?_⟩
+    rw [hfmt]
+    simp [parseH2Request, hsp, lookup, without, ha, hok,
+      show (pMethod == pScheme) = false by decide, show (pMethod == pPath) = false by decide,
+      show (pScheme == pMethod) = false by decide, show (pScheme == pPath) = false by decide,
+      show (pPath == pMethod) = false by decide, show (pPath == pScheme) = false by decide,
+      show (pMethod == pAuthority) = false by decide, show (pScheme == pAuthority) = false by decide,
+      show (pPath == pAuthority) = false by decide, show (pAuthority == pMethod) = false by decide,
+      show (pAuthority == pScheme) = false by decide, show (pAuthority == pPath) = false by decide]
+
+/-! ### status codes -/
+
+private theorem dec3 : ∀ x : Fin 10, ∀ y : Fin 10, ∀ z : Fin 10, x.val ≠ 0 →
+    natDec (x.val * 100 + y.val * 10 + z.val) =
+      [UInt8.ofNat (48 + x.val), UInt8.ofNat (48 + y.val), UInt8.ofNat (48 + z.val)] := by decide +kernel
+
+private theorem strip3 : ∀ x y z : Fin 10,
+    pyStrip [UInt8.ofNat (48 + x.val), UInt8.ofNat (48 + y.val), UInt8.ofNat (48 + z.val)] =
+      [UInt8.ofNat (48 + x.val), UInt8.ofNat (48 + y.val), UInt8.ofNat (48 + z.val)] := by decide +kernel
+
+private theorem digit_fin (c : UInt8) (h : isDigit c = true) : ∃ x : Fin 10, c = UInt8.ofNat (48 + x.val) ∧ decVal c = x.val := by
+  have : ∀ c : UInt8, isDigit c = true → c.toNat - 48 < 10 ∧ c = UInt8.ofNat (48 + (c.toNat - 48)) :=
+    byte_forall _ (by decide +kernel)
+  exact ⟨⟨c.toNat - 48, (this c h).1⟩, (this c h).2, rfl⟩
+
+private theorem parseH2Response_some (b : Block) (st : Nat) (fs : List Field) (hp : parseH2Response b = some (st, fs)) :
+    ∃ ps a b' c, splitPseudo b [] = some (ps, fs) ∧ lookup pStatus ps = some [a, b', c] ∧
+      ((((isDigit a = true ∧ isDigit b' = true) ∧ isDigit c = true) ∧ a ≠ 48) ∧ (without pStatus ps).isEmpty = true) ∧
+      decVal a * 100 + decVal b' * 10 + decVal c = st := by
+  unfold parseH2Response at hp
+  cases hs : splitPseudo b [] with
+  | none => simp [hs] at hp
+  | some pf =>
+    obtain ⟨ps, fs'⟩ := pf
+    simp only [hs] at hp
+    cases hl : lookup pStatus ps with
+    | none => simp [hl] at hp
+    | some d =>
+      simp only [hl] at hp
+      match d, hl, hp with
+      | [], _, hp => simp at hp
+      | [_], _, hp => simp at hp
+      | [_, _], _, hp => simp at hp
+      | _ :: _ :: _ :: _ :: _, _, hp => simp at hp
+      | [a, b', c], hl, hp =>
+        by_cases hcond : (isDigit a && isDigit b' && isDigit c && a != 48 && (without pStatus ps).isEmpty) = true
+        · simp only [hcond, if_true] at hp
+          simp at hp
+          obtain ⟨hst, hfs⟩ := hp
+          subst hfs
+          refine ⟨ps, a, b', c, rfl, hl, ?_, hst⟩
+          simpa [Bool.and_eq_true] using hcond
+        · simp [hcond] at hp
+
+/-- A status accepted from an HTTP/2 server (`parse_h2_response_headers`) is written to an HTTP/1 client as the
+    same three digits, and over HTTP/2 (whatever the source version) as a `:status` with the same three digits,
+    first in the block. -/
+theorem status_preserved (b : Block) (st : Nat) (fs : List Field) (hp : parseH2Response b = some (st, fs)) :
+    (pStatus, natDec st) ∈ b
+    ∧ Ref.parseStatusLine (sHttp11 ++ [32] ++ natDec st ++ [32] ++ reason st)
+        = some (sHttp11, st, joinWith [32] (splitOn 32 (reason st)))
+    ∧ (formatH2Response st fs true).head? = some (pStatus, natDec st)
+    ∧ (formatH2Response st fs false).head? = some (pStatus, natDec st) := by
+  obtain ⟨ps, a, b', c, hs, hl, hcond, hst⟩ := parseH2Response_some b st fs hp
+  obtain ⟨x, hx, hxv⟩ := digit_fin a hcond.1.1.1.1
+  obtain ⟨y, hy, hyv⟩ := digit_fin b' hcond.1.1.1.2
+  obtain ⟨z, hz, hzv⟩ := digit_fin c hcond.1.1.2
+  have hx0 : x.val ≠ 0 := by
+    intro h0; apply hcond.1.2; rw [hx, h0]; rfl
+  have hdec : natDec st = [a, b', c] := by
+    rw [← hst, hxv, hyv, hzv, dec3 x y z hx0, ← hx, ← hy, ← hz]
+  refine ⟨?_, ?_, ?_, ?_⟩
+  · -- the :status entry the server sent is what natDec writes
+    rw [hdec]
+    have hm := lookup_mem _ _ _ hl
+    rcases (splitPseudo_mem b [] ps fs hs).1 _ hm with h | h
+    · simp at h
+    · exact h
+  · have hno32 : ∀ c ∈ sHttp11, c ≠ 32 := by decide
+    have hd32 : ∀ q ∈ [a, b', c], q ≠ 32 := by
+      intro q hq
+      have hqd : isDigit q = true := by
+        simp at hq
+        rcases hq with h | h | h <;> subst h
+        · exact hcond.1.1.1.1
+        · exact hcond.1.1.1.2
+        · exact hcond.1.1.2
+      intro e; subst e; revert hqd; decide
+    have e : sHttp11 ++ [32] ++ natDec st ++ [32] ++ reason st = sHttp11 ++ 32 :: ([a, b', c] ++ 32 :: reason st) := by
+      rw [hdec]; simp
+    unfold Ref.parseStatusLine
+    rw [e, splitOn_append 32 sHttp11 _ hno32, splitOn_append 32 [a, b', c] _ hd32]
+    cases hr : splitOn 32 (reason st) with
+    | nil =>
+      have : ∀ l : Bytes, splitOn 32 l ≠ [] := by
+        intro l; induction l with
+        | nil => simp [splitOn]
+        | cons q qs ih => unfold splitOn; split; simp; split <;> simp
+      exact absurd hr (this _)
+    | cons p1 prest =>
+      have hv : Ref.isVersion sHttp11 = true := by decide
+      simp [hv, hcond.1.1.1.1, hcond.1.1.1.2, hcond.1.1.2, ← hst]
+  · simp [formatH2Response, normalizeH2, show pyIsLower pStatus = true by decide]
+  · have h1 : pyStrip (lower pStatus) = pStatus := by decide
+    have h2 : pyStrip (natDec st) = natDec st := by
+      rw [hdec, hx, hy, hz]
+      exact strip3 x y z
+    have h3 : Gen.C06.connectionHeaders.contains pStatus = false := by decide
+    unfold formatH2Response normalizeH1
+    simp only [Bool.false_eq_true, if_false, List.map_cons, h1, h2, List.filter_cons, h3, Bool.not_false, if_true,
+      List.head?_cons]
+
+/-! ### the hypotheses are satisfiable and the model rejects what it must -/
+
+def exBlock : Block :=
+  [(pMethod, [80, 79, 83, 84]), (pScheme, sHttp), (pPath, [47]), (pAuthority, [97, 46, 98]),
+   (sCookieL, [97, 61, 98]), ([120, 45, 97], [49]), (sCookieL, [99, 61, 100])]
+
+example : h2ValidReq exBlock = true := by decide
+example : (parseH2Request true exBlock).map (fun r => validateRequest r false) = some true := by decide
+/-- the example of the fixed defect: a body without content-length gets one, cookies are joined, Host is inserted -/
+example : (h2ToH1 true exBlock [71, 69, 84]).map Ref.parse =
+    some (some [⟨[80, 79, 83, 84], [47], sHttp11,
+      [(sHost, [97, 46, 98]), (sCookieL, [97, 61, 98, 59, 32, 99, 61, 100]), ([120, 45, 97], [49]), (sCL, [51])],
+      [71, 69, 84]⟩]) := by decide
+/-- whitespace in :path is refused (the request line would be split differently) -/
+example : (parseH2Request true [(pMethod, [71, 69, 84]), (pScheme, sHttp), (pPath, [47, 97, 32, 98]), (pAuthority, [97])]).map
+    (fun r => validateRequest r false) = some false := by decide
+/-- duplicate pseudo-header -/
+example : parseH2Request true [(pMethod, [71]), (pMethod, [72]), (pScheme, sHttp), (pPath, [47])] = none := by decide
+/-- the reference reader does refuse an unframed body: two messages / malformed -/
+example : Ref.parse ([71, 69, 84, 32, 47, 32] ++ sHttp11 ++ crlf ++ crlf ++ [120]) = none := by decide
+example : parseH2Response [(pStatus, [50, 48, 48])] = some (200, []) := by decide
+example : parseH2Response [(pStatus, [45, 50, 48, 48])] = none := by decide
+example : parseH2Response [(pStatus, [48, 50, 48, 48])] = none := by decide
 
 end MitmVerif.Props.C06
